@@ -45,6 +45,10 @@ ExpectCell(ivs, labs, k, sl, el, lo, hi) ==
   IN  IF k + 1 <= kmin THEN sl
       ELSE IF k >= kmax THEN el
       ELSE CellLabel(ivs, labs, k)
+(* Both labellings are constant between consecutive boundaries of input and result, so it is  *)
+(* enough to look at the unit cell that starts at each such boundary inside [lo, hi): this      *)
+(* checks EVERY instant and is independent of how fine the lattice is.                          *)
+CheckCells(a, b, lo, hi) == {k \in Starts(a) \cup Ends(a) \cup Starts(b) \cup Ends(b) \cup {lo} : lo <= k /\ k < hi}
 (* total verdict on a (claimed) result; names the failing clause *)
 AdjustVerdict(ivs, labs, tmin, tmax, sl, el, oivs, olabs) ==
   LET lo == Lo(ivs, tmin)  hi == Hi(ivs, tmax) IN
@@ -54,7 +58,7 @@ AdjustVerdict(ivs, labs, tmin, tmax, sl, el, oivs, olabs) ==
   ELSE IF ~Ordered(oivs) THEN "not-time-ordered"
   ELSE IF oivs[1][1] # lo THEN "does-not-begin-at-t_min"
   ELSE IF oivs[Len(oivs)][2] # hi THEN "does-not-end-at-t_max"
-  ELSE IF \E k \in lo..(hi - 1) : CellLabel(oivs, olabs, k) # ExpectCell(ivs, labs, k, sl, el, lo, hi)
+  ELSE IF \E k \in CheckCells(ivs, oivs, lo, hi) : CellLabel(oivs, olabs, k) # ExpectCell(ivs, labs, k, sl, el, lo, hi)
        THEN "label-function-changed"
   ELSE "ok"
 
@@ -102,7 +106,7 @@ MergeVerdict(xi, xl, yi, yl, oi, oxl, oyl) ==
   ELSE IF ~PositiveDur(oi) \/ ~Contiguous(oi) THEN "not-a-segmentation"
   ELSE IF SumDur(oi) # SumDur(xi) THEN "duration-not-conserved"
   ELSE IF ~(Bounds(xi) \cup Bounds(yi) \subseteq Bounds(oi)) THEN "not-a-common-refinement"
-  ELSE IF \E k \in SpanMin(xi)..(SpanMax(xi) - 1) :
+  ELSE IF \E k \in CheckCells(xi \o yi, oi, SpanMin(xi), SpanMax(xi)) :
              \/ CellLabel(oi, oxl, k) # CellLabel(xi, xl, k)
              \/ CellLabel(oi, oyl, k) # CellLabel(yi, yl, k) THEN "label-function-changed"
   ELSE "ok"
